@@ -60,7 +60,7 @@ META = {
         "technique": "Lean 4 invariant proof over a record-level WAL state machine + differential correspondence incl. syscall traces",
     },
     "C03": {
-        "text": "Byte level (Lean theorems over Store.lean's event scripts, every state tied to the record-level machine, every cut position, every N / key kind): cut a commit's script after any number of filesystem events — recovery succeeds without panic and returns the old key map or the old one with exactly this operation (C03_commit_crash_atomic_bytes); cut the recovery itself anywhere and recover again: same alternative, tied again (C03_nested_crash_bytes); checkpoints and the whole put script likewise; whole sessions (any sequence of logged operations, a kill inside any of them: C03_history_crash_atomic_bytes). CONTENTS and the closing sentence of the property (Props/C03Blobs, C03Live): after a kill at any event of any operation `open` returns a handle, every key reads exactly its old or its new content (all keys of a range removal or none), the store is live again (StoreLive) and stays so through ANY further history of puts, removes, range removals, checkpoints, restarts, abandoned transactions and kills of each of them, inside recovery and inside first-time initialisation too (C03_histories_with_crashes, C03_from_empty_directory); delete_orphans afterwards restores exactness. Record level: after ANY prefix of ANY action sequence open yields the state after the records appended so far. " + _corr,
+        "text": "Byte level (Lean theorems over Store.lean's event scripts, every state tied to the record-level machine, every cut position, every N / key kind): cut a commit's script after any number of filesystem events — recovery succeeds without panic and returns the old key map or the old one with exactly this operation (C03_commit_crash_atomic_bytes); cut the recovery itself anywhere and recover again: same alternative, tied again (C03_nested_crash_bytes); checkpoints and the whole put script likewise; whole sessions (any sequence of logged operations, a kill inside any of them: C03_history_crash_atomic_bytes). CONTENTS and the closing sentence of the property (Props/C03Blobs, C03Live): after a kill at any event of any operation `open` returns a handle, every key reads exactly its old or its new content (all keys of a range removal or none), the store is live again (StoreLive) and stays so through ANY further history of puts, removes, range removals, checkpoints, restarts, abandoned transactions and kills of each of them, inside recovery and inside first-time initialisation too (C03_histories_with_crashes, C03_from_empty_directory); delete_orphans afterwards restores exactness; the usage guards of these theorems (field widths, valid keys, snapshot fits, versions < 2^64) are themselves proved to hold along every history of at most 2^15 - 3 operations on keys shorter than 64 KiB (C03_small_world). Record level: after ANY prefix of ANY action sequence open yields the state after the records appended so far. " + _corr,
         "design_ref": "DESIGN.md §7 C03, §4 P3",
         "note": "Trusted: Lean kernel; process-kill crash model (calls atomic, completed calls persist); hand model; that the REAL syscall sequence is the script's: kill before every mutating call of a targeted operation, crash image reopened by real code and model; fresh staging names, usage guards (field widths, valid keys), no hash collision among stored contents.",
         "technique": "Lean 4 invariant proof (ghost history / recovery theorem) + crash-point enumeration differential check via LD_PRELOAD interposer",
@@ -114,7 +114,7 @@ META = {
         "technique": "Lean 4 classification theorems over arbitrary file trees + interleaving invariant for clean-up + differential checks on planted garbage, crash images and forced schedules",
     },
     "C09": {
-        "text": "Byte level (Lean theorems): power loss — any set of files loses everything after its last sync, directory operations persist in order — at ANY cut of a commit, of a whole put, or of a checkpoint leaves an image that recovery reads without panic as the old key map or the old one with exactly this operation (C09_commit/put/checkpoint_power_loss_bytes), likewise during `open` itself and for power loss after power loss, any number of times (C09_open_power_loss_bytes, C09_repeated_power_loss_bytes); scripts obey the sync discipline (a write to a WAL file is followed at once by its sync) and leave all WAL files fully synced; a committed blob is complete and synced before its record is written. CONTENTS (Props/C09Live): every power-loss image shows recovery and readers what some kill image shows (powerLoss_allPre_gen), so after power loss at any cut of any operation, for any set of files losing their unsynced bytes, `open` returns a handle and every visible key reads exactly its old or its new content (StoreDur.putPowerLoss, removePowerLoss, removeRangePowerLoss, checkpointPowerLoss, reopenPowerLoss); whole histories with power losses: C09_histories_with_power_loss. " + _corr,
+        "text": "Byte level (Lean theorems): power loss — any set of files loses everything after its last sync, directory operations persist in order — at ANY cut of a commit, of a whole put, or of a checkpoint leaves an image that recovery reads without panic as the old key map or the old one with exactly this operation (C09_commit/put/checkpoint_power_loss_bytes), likewise during `open` itself and for power loss after power loss, any number of times (C09_open_power_loss_bytes, C09_repeated_power_loss_bytes); scripts obey the sync discipline (a write to a WAL file is followed at once by its sync) and leave all WAL files fully synced; a committed blob is complete and synced before its record is written. CONTENTS (Props/C09Live): every power-loss image shows recovery and readers what some kill image shows (powerLoss_allPre_gen), so after power loss at any cut of any operation, for any set of files losing their unsynced bytes, `open` returns a handle and every visible key reads exactly its old or its new content (StoreDur.putPowerLoss, removePowerLoss, removeRangePowerLoss, checkpointPowerLoss, reopenPowerLoss); whole histories with power losses: C09_histories_with_power_loss, and with every usage guard discharged C09_small_world. " + _corr,
         "design_ref": "DESIGN.md §7 C09",
         "note": "Trusted: Lean kernel; the property's own loss model; fdatasync semantics; no real power loss can be run (loss images are rebuilt from the real syscall trace incl. sync events).",
         "technique": "Lean 4 theorems on sync ordering in event scripts + power-loss image reconstruction from traced syscalls",
